@@ -7,10 +7,14 @@ C06 cares about — and instances; when all of them are finished `pandora.Wait()
 handler, timers.
 
 A trace is an arbitrary list of events; an event that is not enabled leaves the state unchanged; nothing
-happens after `exit`. `waitOnErrs` selects what the signal branch does when `errs` becomes ready:
-* `false` — the code as found: `log.Fatal("Engine interrupted")` at once (os.Exit without `pandora.Wait()`);
-* `true`  — the repaired code (fixes/C06-cli-wait-before-exit.diff): wait for `pandora.Wait()`, bounded by the
-  same interrupt timeout and still interruptible by a second signal, then `log.Fatal`.
+happens after `exit`. What the code is comes in as a `Cfg` (regenerated from cli/cli.go, see Bridge/C06Cli.lean):
+* `waitOnErrs` selects what the signal branch does when `errs` becomes ready:
+  `false` — the code as found: `log.Fatal("Engine interrupted")` at once (os.Exit without `pandora.Wait()`);
+  `true`  — the repaired code (fixes/C06-cli-wait-before-exit.diff): wait for `pandora.Wait()`, bounded by the
+  same interrupt timeout and still interruptible by a second signal, then `log.Fatal`;
+* `notified s` — is signal `s` among the arguments of `signal.Notify`. A signal that is not keeps its default
+  action: SIGINT and SIGTERM terminate the process at once (no deferred function, no flush);
+* `cancels s` — does the `case` of the `switch sig` for `s` call `gracefulShutdown()` (cancel the run context).
 `Engine.Run` returns nil only after every pool's tasks were awaited (core/engine/engine.go: `pool.Run`
 returns nil only when `awaitErr` was closed, which happens after `awaitRun` saw all four results); this is
 the enabling condition of `engineReturned true`.
@@ -26,7 +30,17 @@ inductive Reason
   | interrupted     -- after a signal: "Engine interrupted"
   | timeout         -- "Interrupt timeout exceeded" / "Engine tasks timeout exceeded."
   | secondSignal    -- "Another signal received. Quiting."
+  | killed          -- default action of a signal that was not passed to signal.Notify
   deriving DecidableEq, Repr
+
+/-- what the code is (regenerated) -/
+structure Cfg where
+  waitOnErrs : Bool
+  notified : Sig → Bool
+  cancels : Sig → Bool
+
+/-- the repaired code: waits, both signals notified, both cancel -/
+def Cfg.repaired : Cfg := { waitOnErrs := true, notified := fun _ => true, cancels := fun _ => true }
 
 inductive Ev
   -- environment
@@ -57,7 +71,7 @@ structure Exit where
 
 structure St where
   pc : Pc := .awaiting
-  sigs : Nat := 0                 -- signals waiting in the channel
+  sigs : List Sig := []           -- signals waiting in the channel `sigs` (capacity 2)
   delivered : Nat := 0            -- ghost: signals delivered so far
   engineDone : Bool := false
   errsReady : Option Bool := none -- value runEngine is blocked sending
@@ -70,11 +84,13 @@ structure St where
 
 def St.die (st : St) (r : Reason) : St := { st with pc := .exited, exit := some ⟨r, st.flushed⟩ }
 
-def step (waitOnErrs : Bool) (st : St) (e : Ev) : St :=
+def step (cfg : Cfg) (st : St) (e : Ev) : St :=
   if st.pc = .exited then st else
   match e with
-  | .signal _ => if st.sigs < 2 then { st with sigs := st.sigs + 1, delivered := st.delivered + 1 }
-                 else { st with delivered := st.delivered + 1 }   -- signal.Notify drops when the channel is full
+  | .signal s =>
+      if !cfg.notified s then { st with delivered := st.delivered + 1 }.die .killed   -- default action: terminate
+      else if st.sigs.length < 2 then { st with sigs := st.sigs ++ [s], delivered := st.delivered + 1 }
+      else { st with delivered := st.delivered + 1 }   -- signal.Notify drops when the channel is full
   | .engineReturned ok =>
       if st.engineDone then st
       else if ok && !st.flushed then st     -- Run returns nil only after all pool tasks were awaited
@@ -82,18 +98,20 @@ def step (waitOnErrs : Bool) (st : St) (e : Ev) : St :=
   | .tasksDone => { st with flushed := true }
   | .timerFires => if st.timerArmed then { st with timerFired := true } else st
   | .takeSignal =>
-      if st.sigs = 0 then st else
-      match st.pc with
-      | .awaiting => { st with sigs := st.sigs - 1, cancelled := true, timerArmed := true, pc := .sigWait }
-      | .sigWait => { st with sigs := st.sigs - 1 }.die .secondSignal
-      | .sigWaitTasks => { st with sigs := st.sigs - 1 }.die .secondSignal
-      | _ => st
+      match st.sigs with
+      | [] => st
+      | s :: rest =>
+        match st.pc with
+        | .awaiting => { st with sigs := rest, cancelled := cfg.cancels s, timerArmed := true, pc := .sigWait }
+        | .sigWait => { st with sigs := rest }.die .secondSignal
+        | .sigWaitTasks => { st with sigs := rest }.die .secondSignal
+        | _ => st
   | .takeErrs =>
       match st.errsReady, st.pc with
       | some true, .awaiting => { st with errsReady := none }.die .finished
       | some false, .awaiting => { st with errsReady := none, cancelled := true, timerArmed := true, pc := .errWait }
       | some _, .sigWait =>
-          if waitOnErrs then { st with errsReady := none, pc := .sigWaitTasks }
+          if cfg.waitOnErrs then { st with errsReady := none, pc := .sigWaitTasks }
           else { st with errsReady := none }.die .interrupted
       | _, _ => st
   | .takeTimeout =>
@@ -112,8 +130,8 @@ def step (waitOnErrs : Bool) (st : St) (e : Ev) : St :=
         | _ => st
       else st
 
-def run (waitOnErrs : Bool) (st : St) : List Ev → St
+def run (cfg : Cfg) (st : St) : List Ev → St
   | [] => st
-  | e :: es => run waitOnErrs (step waitOnErrs st e) es
+  | e :: es => run cfg (step cfg st e) es
 
 end Pandora.Model.CliShutdown
